@@ -56,3 +56,9 @@ N("c02-n-exit-nested", "C02", A, EX,
 
 # from seeded change C02/d (round 2)
 M("c02-body-exception-truthiness", "C02", A, "TaskGroup.__aexit__", "            if exc_val is not None:\n                self.cancel_scope.cancel()", "            if exc_val:\n                self.cancel_scope.cancel()", ["R02-c"])
+
+# from seeded change C02/c (round 2): a task that joins an already failed group
+M("c02-spawn-restart-before-join", "C02", A, "TaskGroup._spawn",
+  "        self.cancel_scope._tasks.add(task)\n        self._tasks.add(task)\n        self.cancel_scope._restart_cancellation()\n",
+  "        self.cancel_scope._restart_cancellation()\n        self.cancel_scope._tasks.add(task)\n        self._tasks.add(task)\n", ["R02-f"])
+M("c02-spawn-no-restart", "C02", A, "TaskGroup._spawn", "        self.cancel_scope._restart_cancellation()\n", "", ["R02-f"])
